@@ -14,10 +14,12 @@ Ev == Trace[l]
 KindOf == [vfile |-> "file", vhttp |-> "http", vgrpc |-> "grpc"]
 
 LineOK(e) ==
-    CASE e.fn = "ishttp" -> e.ok = IsHTTPScheme(e.scheme)
-      [] e.fn = "isgrpc" -> e.ok = IsGRPCScheme(e.scheme)
-      [] OTHER -> LET v == Validate(KindOf[e.fn], [isnil |-> e.isnil, scheme |-> e.scheme, rest |-> "any"])
-                  IN  e.ok = v.ok /\ e.err = v.err
+    CASE e.fn = "ishttp" -> e.ok \in {IsHTTPScheme(e.scheme), IsKindA("http", e.scheme)}
+      [] e.fn = "isgrpc" -> e.ok \in {IsGRPCScheme(e.scheme), IsKindA("grpc", e.scheme)}
+      [] OTHER -> LET u == [isnil |-> e.isnil, scheme |-> e.scheme, rest |-> "any"]
+                      v == Validate(KindOf[e.fn], u)
+                      a == ValidateA(KindOf[e.fn], u)
+                  IN  (e.ok = v.ok /\ e.err = v.err) \/ (e.ok = a.ok /\ e.err = a.err)
 
 (* The enumeration variables of UrlScheme.tla are not used here and stay fixed. *)
 TInit == l = 1 /\ s = <<>> /\ isnil = FALSE /\ rest = "any"
